@@ -203,7 +203,7 @@ func init() {
 		Gen: func(c *RunCtx) []*Batch {
 			r := c.R
 			b := evalBatch("C10", "folding")
-			n := c.N(900, 40000)
+			n := c.N(1700, 40000)
 			constGen := func() *GT { return constRichTree(r) }
 			for k := 0; k < n; k++ {
 				t := constGen()
